@@ -166,6 +166,27 @@ theorem mkBool_boolByte (b : Nat) : mkBool (boolByte b) = .bool (boolByte b) := 
   unfold mkBool
   rcases boolByte_cases b with h | h | h <;> simp [h, boolInvalid]
 
+/-- clamping a byte `MarshalAppend` wrote for a `typedef.Bool` changes nothing: it is 0, 1 or 255 already -/
+@[simp] theorem clampBool_boolByte (b : Nat) : clampBool (boolByte b) = boolByte b := by
+  unfold clampBool
+  rcases boolByte_cases b with h | h | h <;> simp [h, boolInvalid]
+
+theorem clampBool_cases (b : Nat) : clampBool b = 0 ∨ clampBool b = 1 ∨ clampBool b = 255 := by
+  unfold clampBool
+  split
+  · right; right; rfl
+  · omega
+
+/-- clamped bytes are in the domain of `typedef.Bool`, where `boolByte` (what `MarshalAppend` writes) is the identity -/
+@[simp] theorem boolByte_clampBool (b : Nat) : boolByte (clampBool b) = clampBool b := by
+  rcases clampBool_cases b with h | h | h <;> rw [h] <;> decide
+
+@[simp] theorem clampBool_clampBool (b : Nat) : clampBool (clampBool b) = clampBool b := by
+  rcases clampBool_cases b with h | h | h <;> rw [h] <;> decide
+
+theorem map_clampBool_boolByte (vs : List Nat) : (vs.map boolByte).map clampBool = vs.map boolByte := by
+  simp [List.map_map, Function.comp_def]
+
 theorem map_mod256 (vs : List Nat) (h : allLt (2 ^ 8) vs = true) : vs.map (· % 256) = vs :=
   map_mod_of_allLt 256 vs (by simpa using h)
 
